@@ -5,4 +5,9 @@ cd "$(dirname "$0")"
 export CARGO_NET_OFFLINE=true
 mkdir -p .build
 (cd tools/vxextract && CARGO_TARGET_DIR=../../.build/vxextract cargo build --release --offline)
-echo "setup ok"
+
+# warm the native replay crates (dependencies only change with /repo's Cargo.lock); failures here are not fatal
+for c in replay replay_net; do
+  (cd $c && cp /repo/Cargo.lock . 2>/dev/null; CARGO_TARGET_DIR=../.build/$c cargo build --offline -q --bins >/dev/null 2>&1 || true)
+done
+echo "setup done"
